@@ -76,7 +76,7 @@ func entryPointNames(p *Prog) (methods []string, funcs []string) {
 			continue
 		}
 		for i := 0; i < it.NumMethods(); i++ {
-			name := it.Method(i).Name()
+			name := nm(it.Method(i))
 			if !seen[name] {
 				seen[name] = true
 				methods = append(methods, name)
@@ -150,7 +150,7 @@ func checkC01(c *Ctx) {
 }
 
 func isVerboseRoot(fn *ssa.Function) bool {
-	n := fn.Name()
+	n := nm(fn)
 	return n == "Verbose" || n == "VerboseContext" || n == "vlogctx"
 }
 
@@ -385,10 +385,10 @@ func c01Decision(c *Ctx, p *Prog, m *Model) {
 			}
 			return at, true
 		case *ssa.Call:
-			if x.Common().IsInvoke() && x.Common().Method.Name() == "GetDebugMode" {
+			if x.Common().IsInvoke() && nm(x.Common().Method) == "GetDebugMode" {
 				return "debug", true
 			}
-			if cal := calleeOf(x); cal != nil && (cal.Name() == "DebugMode" || cal.Name() == "GetDebugMode") && cal.Pkg != nil && strings.HasPrefix(cal.Pkg.Pkg.Path(), "github.com/hedzr/is") {
+			if cal := calleeOf(x); cal != nil && (nm(cal) == "DebugMode" || nm(cal) == "GetDebugMode") && cal.Pkg != nil && strings.HasPrefix(cal.Pkg.Pkg.Path(), "github.com/hedzr/is") {
 				return "debug", true
 			}
 		case *ssa.Extract:
@@ -632,7 +632,7 @@ func c01SingleRule(c *Ctx, p *Prog, m *Model) {
 						if m.thresholdOwner(s) != nil {
 							thr = true
 						}
-						if g, ok := globalLoad(s); ok && g.Name() == "lvlCurrent" {
+						if g, ok := globalLoad(s); ok && nm(g) == "lvlCurrent" {
 							thr = true
 						}
 					}
@@ -712,7 +712,7 @@ func c01Verbs(c *Ctx, p *Prog, m *Model, tags string) {
 					}
 				}
 				// a private helper without a level parameter fixes the level itself (vlogctx)
-				if !hasLevel && depth < 2 && cal.Pkg == p.Slog && !token.IsExported(cal.Name()) && m.Spine[cal] {
+				if !hasLevel && depth < 2 && cal.Pkg == p.Slog && !token.IsExported(nm(cal)) && m.Spine[cal] {
 					scan(cal, depth+1)
 				}
 			}
@@ -739,7 +739,7 @@ func c01DebugMode(c *Ctx, p *Prog) {
 	for _, fn := range p.RepoFuncs() {
 		for _, cs := range callsIn(fn) {
 			cal := calleeOf(cs)
-			if cal == nil || cal.Name() != "SetDebugMode" || cal.Pkg == nil || !strings.HasPrefix(cal.Pkg.Pkg.Path(), "github.com/hedzr/is") {
+			if cal == nil || nm(cal) != "SetDebugMode" || cal.Pkg == nil || !strings.HasPrefix(cal.Pkg.Pkg.Path(), "github.com/hedzr/is") {
 				continue
 			}
 			n++
